@@ -68,6 +68,8 @@ class FakeSocket:
     def connect_ex(self, addr):
         self.remote_addr = addr
         self.net.connect(self, addr)
+        if getattr(self, "failed_at_once", False):
+            return 101          # ENETUNREACH: the connect fails immediately instead of reporting "in progress"
         return 115
 
     def accept(self):
@@ -245,6 +247,8 @@ class Net:
         self.send_faults = 0    # sends that failed because the other end had gone
         self.recv_faults = 0    # reads that failed because the other end reset the connection
         self.refuse = set()     # addresses that refuse connections although a node listens
+        self.unreachable = set()    # addresses to which a connect fails immediately (ENETUNREACH)
+        self.immediate_connect_failures = 0
         self.all_sockets = []
 
     # ---- construction
@@ -284,6 +288,13 @@ class Net:
         """called from FakeSocket.connect_ex (an outgoing connection of the current node)"""
         self.all_sockets.append(sock)
         target = self.by_addr.get(addr)
+        if addr in self.unreachable:
+            # no route (the host's network is down, a broadcast / multicast address was announced): connect_ex reports the
+            # error at once; the socket is dead, whatever is done with it afterwards fails
+            sock.refused = True
+            sock.failed_at_once = True
+            self.immediate_connect_failures += 1
+            return
         if target is None or addr in self.refuse:
             sock.refused = True
             return
